@@ -711,6 +711,22 @@ func (r *yieldRewriter) rewriteReturnAndForSwitchInitStmtInYieldFun(body *ast.Bl
 				info := r.pkg.TypeInfo()
 				var assigns []ast.Stmt
 				var lhs, rhs []ast.Expr
+				// the names declared by the stmt, in scope after it only
+				declared := map[string]bool{}
+				for _, l := range n.Lhs {
+					if id, _ := l.(*ast.Ident); id != nil && info.Defs[id] != nil {
+						declared[id.Name] = true
+					}
+				}
+				mentionsDeclared := func(e ast.Expr) (yes bool) {
+					ast.Inspect(e, func(n ast.Node) bool {
+						if id, _ := n.(*ast.Ident); id != nil && declared[id.Name] {
+							yes = true
+						}
+						return !yes
+					})
+					return
+				}
 				for i, l := range n.Lhs {
 					id, _ := l.(*ast.Ident)
 					// redeclared: not defined but used here (generated idents are neither)
@@ -722,6 +738,16 @@ func (r *yieldRewriter) rewriteReturnAndForSwitchInitStmtInYieldFun(body *ast.Bl
 					case len(n.Lhs) == len(n.Rhs) && (info.Types[n.Rhs[i]].Value != nil || info.Types[n.Rhs[i]].IsNil()):
 						// a constant / nil takes its type from n (var n float64; n, m := 1, 2),
 						// it has no effect and doesn't depend on the others, just assign it afterwards
+						if mentionsDeclared(n.Rhs[i]) {
+							// n, k := k+1, 7 means the const k, afterwards k is the new variable:
+							// evaluate it in front of the stmt, into a temp of the type of n
+							r.tmpCnt++
+							tmp := X.Ident(cstRedefineVar + strconv.Itoa(r.tmpCnt))
+							c.InsertBefore(X.Define(tmp, id))
+							c.InsertBefore(X.Assign(token.ASSIGN, tmp, n.Rhs[i]))
+							assigns = append(assigns, X.Assign(token.ASSIGN, id, tmp))
+							continue
+						}
 						assigns = append(assigns, X.Assign(token.ASSIGN, id, n.Rhs[i]))
 						continue
 					default:
